@@ -103,13 +103,35 @@ def selVal (s : Selector) : Bytes :=
     ascii Gen.ProfSelect.valuePrefix ++ s.val ++ ascii Gen.ProfSelect.valueSuffix
   else s.val
 
-/-- one selector: `inl` = global clause, `inr` = key/value clause -/
-def clauseOf (s : Selector) : Option (PCond ⊕ PCond) :=
+def opHoldsP (re : Bytes → Bytes → Bool) (op : Op) (have_ want : Bytes) : Bool :=
+  match op with
+  | .eq => have_ == want | .ne => have_ != want | .re => re want have_ | .nre => !(re want have_)
+
+def Op.ofStr (s : String) : Option Op :=
+  if s = "=" then some .eq else if s = "!=" then some .ne else if s = "=~" then some .re
+  else if s = "!~" then some .nre else none
+
+/-- `inverseOp` (table `Gen.ProfSelect.inverseOps`, the final `return` for every other operator) -/
+def invOp (op : Op) : Option Op :=
+  Op.ofStr ((Gen.ProfSelect.inverseOps.lookup op.str).getD Gen.ProfSelect.inverseDefault)
+
+/-- `acceptsEmpty(op, _str)` on the value as `getMatchers` has it by then (regular expressions anchored): a label the
+    series does not have satisfies the selector. `gre pat s` = Go's `regexp.MatchString(pat, s)` (a search; the planner
+    asks it about the empty string only). `Gen.ProfSelect.absentLabel` says whether the source has that test
+    (`"inverse"`) or asks a row of every key/value selector (`"row-required"`, the code as it was written). -/
+def acceptsEmptyP (gre : Bytes → Bytes → Bool) (s : Selector) : Bool :=
+  Gen.ProfSelect.absentLabel == "inverse" && opHoldsP gre s.op [] (selVal s)
+
+/-- one selector: `inl` = global clause, `inr` = key/value clause with its `required` bit; a key/value selector that
+    accepts the empty value is asked inverted and its bit is not required -/
+def clauseOf (gre : Bytes → Bytes → Bool) (s : Selector) : Option (PCond ⊕ (PCond × Bool)) :=
   match pseudoOf s.name with
   | some (field, inArr) =>
     (matcherClause field s.op (selVal s)).map (fun c => .inl (if inArr then .arrayExists c else c))
   | none =>
-    (matcherClause "val" s.op (selVal s)).map (fun c => .inr (.and2 (.cmp (fnOf "Eq") "key" s.name) c))
+    let opt := acceptsEmptyP gre s
+    (if opt then invOp s.op else some s.op).bind (fun op =>
+      (matcherClause "val" op (selVal s)).map (fun c => .inr (.and2 (.cmp (fnOf "Eq") "key" s.name) c, !opt)))
 
 structure PQuery where
   table : String
@@ -117,26 +139,31 @@ structure PQuery where
   toDate : Bytes
   globals : List PCond
   kvs : List PCond
+  /-- bit i of `matchersResponse.kvRequired`: a row must satisfy `kvs[i]`; clear: no row may (an inverted selector) -/
+  kvRequired : List Bool
 
 /-- `getMatchers` + `Process` -/
-def plan (table : String) (fromDate toDate : Bytes) : List Selector → Option PQuery
-  | [] => some ⟨table, fromDate, toDate, [], []⟩
+def plan (gre : Bytes → Bytes → Bool) (table : String) (fromDate toDate : Bytes) : List Selector → Option PQuery
+  | [] => some ⟨table, fromDate, toDate, [], [], []⟩
   | s :: ss =>
-    match clauseOf s, plan table fromDate toDate ss with
+    match clauseOf gre s, plan gre table fromDate toDate ss with
     | some (.inl g), some q => some { q with globals := g :: q.globals }
-    | some (.inr k), some q => some { q with kvs := k :: q.kvs }
+    | some (.inr k), some q => some { q with kvs := k.1 :: q.kvs, kvRequired := k.2 :: q.kvRequired }
     | _, _ => none
 
 def PQuery.rowOk (re : Bytes → Bytes → Bool) (q : PQuery) (r : PRow) : Bool :=
   cmpBytes (fnOf "Ge") r.date q.fromDate && cmpBytes (fnOf "Le") r.date q.toDate &&
     q.globals.all (·.eval re r)
 
-/-- meaning over the index rows; without key/value selectors there is neither the OR nor the HAVING -/
+/-- `if matchers.kvRequired != 0 { res = res.AndWhere(sql.Or(matchers.kvMatchers...)) }` -/
+def PQuery.useOr (q : PQuery) : Bool := requiredConst q.kvRequired != 0
+
+/-- meaning over the index rows; without key/value selectors there is neither the OR nor the HAVING; the OR is there
+    iff some bit is required; HAVING compares the aggregate with the Go `int64` (a negative one equals no aggregate) -/
 def PQuery.eval (re : Bytes → Bytes → Bool) (W : Nat) (q : PQuery) (tbl : List PRow) : List Nat :=
   if q.kvs.isEmpty then ((tbl.filter (q.rowOk re)).map (·.fp)).eraseDups
-  else if q.kvs.length ≤ 63 then
-    bitsetSelect W (q.rowOk re) (q.kvs.map (fun c r => c.eval re r)) (·.fp) tbl
-  else []    -- Go renders (1<<n)-1 as -1 for n ≥ 64: never equal to an unsigned aggregate
+  else bitsetSelectGen W (q.rowOk re) (q.kvs.map (fun c r => c.eval re r)) q.useOr
+    (fun x => ((x : Nat) : Int) == requiredConst q.kvRequired) (·.fp) tbl
 
 /-! ### SQL text -/
 
@@ -160,17 +187,13 @@ def PQuery.render (q : PQuery) : Bytes :=
     logical "and" ([logical (fnOf "Ge") [ascii "date", Sql.quote q.fromDate],
                     logical (fnOf "Le") [ascii "date", Sql.quote q.toDate]] ++
       (if q.globals.isEmpty then [] else [logical "and" (q.globals.map PCond.render)]) ++
-      (if q.kvs.isEmpty then [] else [logical "or" (q.kvs.map PCond.render)])) ++
+      (if q.kvs.isEmpty || !q.useOr then [] else [logical "or" (q.kvs.map PCond.render)])) ++
     ascii " GROUP BY fingerprint" ++
     (if q.kvs.isEmpty then [] else
       ascii " HAVING " ++ logical "and" [logical (fnOf "Eq")
-        [renderBitSetP q.kvs, ascii (toString (havingConst q.kvs.length))]])
+        [renderBitSetP q.kvs, ascii (toString (requiredConst q.kvRequired))]])
 
 /-! ### the direct reading -/
-
-def opHoldsP (re : Bytes → Bytes → Bool) (op : Op) (have_ want : Bytes) : Bool :=
-  match op with
-  | .eq => have_ == want | .ne => have_ != want | .re => re want have_ | .nre => !(re want have_)
 
 /-- what one selector asks of one index row -/
 def selHolds (re : Bytes → Bytes → Bool) (s : Selector) (r : PRow) : Bool :=
